@@ -165,8 +165,39 @@ def depthparam_guard(f, call):
     return None
 
 
+def singleshot_guard(f, call):
+    """G3: the recursive call passes a null literal for a pointer parameter p of the same function, and p is dereferenced (or tested non-null) on every path to the call.
+    In the callee p is null, so the call site cannot be reached again without going through that dereference: the recursion is at most one level deep."""
+    if call.get('q') != f.q and (call.get('fn') is None or call.get('fn') != f.id):
+        return None
+    args = call.args()
+    for k, prm in enumerate(f.params):
+        if k >= len(args) or not f.ptype(prm).rstrip().endswith('*'):
+            continue
+        a = A.strip_casts(args[k])
+        if not (a['k'] in ('GNUNullExpr', 'CXXNullPtrLiteralExpr') or a.get('v') == 0):
+            continue
+        d = prm['d']
+        # (a) a dominating guard says p is non-null
+        for (cn, truth) in cond_nodes_guarding(f, call):
+            c0 = A.strip_casts(cn)
+            if c0['k'] == 'DeclRefExpr' and c0.get('d') == d and truth:
+                return 'single-shot: `%s` is tested non-null before the call, which passes NULL for it' % prm.get('n')
+        # (b) p is dereferenced on every path to the call
+        for x in f.walk():
+            deref = (x['k'] == 'UnaryOperator' and x.get('op') == '*' and A.strip_casts(x['ch'][0]).get('d') == d and A.strip_casts(x['ch'][0])['k'] == 'DeclRefExpr') or \
+                    (x['k'] == 'MemberExpr' and x.get('arrow') and x['ch'] and A.strip_casts(x['ch'][0]).get('d') == d and A.strip_casts(x['ch'][0])['k'] == 'DeclRefExpr')
+            if deref:
+                pos = x
+                while pos is not None and f.pos(pos['i']) is None:
+                    pos = pos.parent
+                if pos is not None and C.dominates(f, pos['i'], call['i']):
+                    return 'single-shot: `%s` is dereferenced (line %s) on every path to the call, which passes NULL for it' % (prm.get('n'), x.get('l'))
+    return None
+
+
 def guard_of(f, call):
-    return nestcount_guard(f, call) or depthparam_guard(f, call)
+    return nestcount_guard(f, call) or depthparam_guard(f, call) or singleshot_guard(f, call)
 
 
 # ------------------------------------------------------------------------------------------------
